@@ -19,7 +19,8 @@ type Roles struct {
 	Commit, Begin                       *ssa.Function
 	CommitMC, BeginMC                   *ssa.MakeClosure
 	Pos, Tran, Auto, Err                *Cell
-	Tables                              ssa.Value // the make(map[uint64]*tableCache)
+	StateT                              types.Type // when the transaction state is an object with methods: its struct type
+	Tables                              ssa.Value  // the make(map[uint64]*tableCache)
 	Select                              *ssa.Select
 	RawEv                               ssa.Value // the event extracted from the select
 	IsValidCall                         *ssa.Call
@@ -152,62 +153,152 @@ func resolveRolesG(a *A, rule string, groups string) *Roles {
 				r.Begin = an
 			}
 		}
-		// the begin closure is optional: its two statements may be written out in the BEGIN arm instead
-		if !a.need(r.Commit != nil, rule, "commit closure (closure of the parser that calls the handler)") {
-			return nil
-		}
-		instrs(r.Parser, func(in ssa.Instruction) {
-			switch x := in.(type) {
-			case *ssa.MakeClosure:
-				if x.Fn == r.Commit {
-					r.CommitMC = x
+		// no closure calls the handler: the state may be an object whose methods the parser calls - the commit method is the
+		// method of an in-package struct type, called by the parser, that calls the handler; that type holds the cells
+		if r.Commit == nil {
+			instrs(r.Parser, func(in ssa.Instruction) {
+				c, ok := in.(*ssa.Call)
+				if !ok || c.Common().IsInvoke() {
+					return
 				}
-				if x.Fn == r.Begin {
-					r.BeginMC = x
+				m := c.Common().StaticCallee()
+				if m == nil || m.Pkg != w.Root || m.Signature.Recv() == nil || !callsHandler(m) {
+					return
 				}
-			}
-		})
-		if !a.need(r.CommitMC != nil && (r.BeginMC != nil || r.Begin == nil), rule, "closure construction sites") {
-			return nil
-		}
-		// cells captured by the commit closure, by type
-		for _, b := range r.CommitMC.Bindings {
-			al, ok := b.(*ssa.Alloc)
-			if !ok {
-				continue
-			}
-			et := al.Type().(*types.Pointer).Elem()
-			switch {
-			case namedIs(et, rootPath, "Position"):
-				r.Pos = newCell(al)
-			case types.Identical(et, types.Typ[types.Bool]):
-				r.Auto = newCell(al)
-			case types.Identical(et, types.Universe.Lookup("error").Type()):
-				r.Err = newCell(al)
-			default:
-				if sl, ok := et.Underlying().(*types.Slice); ok && typeIs(sl.Elem(), rootPath, "StreamEvent") {
-					r.Tran = newCell(al)
+				pt, isPtr := m.Signature.Recv().Type().Underlying().(*types.Pointer)
+				if !isPtr {
+					return
 				}
-			}
+				if _, isStruct := pt.Elem().Underlying().(*types.Struct); isStruct && !typeIs(pt.Elem(), rootPath, "Streamer") {
+					r.Commit, r.StateT = m, pt.Elem()
+				}
+			})
 		}
-		if !a.need(r.Pos != nil, rule, "position cell (Position variable captured by the commit closure)") ||
-			!a.need(r.Tran != nil, rule, "transaction buffer cell ([]*StreamEvent captured by the commit closure)") ||
-			!a.need(r.Auto != nil, rule, "autocommit cell (bool captured by the commit closure)") {
-			return nil
-		}
-		// the position cell is initialised from a method that loads nowPos
-		for _, s := range r.Pos.stores() {
-			if s.Fn == r.Parser && s.Field == "" {
-				if c, ok := s.Store.Val.(*ssa.Call); ok {
-					if f := c.Common().StaticCallee(); f != nil && f.Pkg == w.Root {
-						r.GetPos = f
+		if r.StateT != nil {
+			st := r.StateT.Underlying().(*types.Struct)
+			fns := w.srcFuncs(w.Root)
+			for i := 0; i < st.NumFields(); i++ {
+				ft := st.Field(i).Type()
+				switch {
+				case namedIs(ft, rootPath, "Position"):
+					r.Pos = newFieldCell(r.StateT, i, fns, r.Parser)
+				case types.Identical(ft, types.Typ[types.Bool]):
+					r.Auto = newFieldCell(r.StateT, i, fns, r.Parser)
+				default:
+					if sl, ok := ft.Underlying().(*types.Slice); ok && typeIs(sl.Elem(), rootPath, "StreamEvent") {
+						r.Tran = newFieldCell(r.StateT, i, fns, r.Parser)
 					}
 				}
 			}
-		}
-		if !a.need(r.GetPos != nil, rule, "position getter (initialiser of the position cell)") {
-			return nil
-		}
+			// begin: a niladic method of the state type that stores false into the flag
+			for _, f := range fns {
+				if f.Signature.Recv() == nil || f == r.Commit || f.Signature.Params().Len() != 0 || f.Signature.Results().Len() != 0 {
+					continue
+				}
+				if pt, ok := f.Signature.Recv().Type().Underlying().(*types.Pointer); !ok || !types.Identical(pt.Elem(), r.StateT) {
+					continue
+				}
+				instrs(f, func(in ssa.Instruction) {
+					if st, ok := in.(*ssa.Store); ok && r.Auto != nil && r.Auto.isAddr(st.Addr) {
+						if b, isC := constBool(st.Val); isC && !b {
+							r.Begin = f
+						}
+					}
+				})
+			}
+			cellKeepFns[r.Commit] = true
+			if r.Begin != nil {
+				cellKeepFns[r.Begin] = true
+			}
+			if !a.need(r.Pos != nil, rule, "position field of the transaction state object") ||
+				!a.need(r.Tran != nil, rule, "buffer field ([]*StreamEvent) of the transaction state object") ||
+				!a.need(r.Auto != nil, rule, "flag field (bool) of the transaction state object") {
+				return nil
+			}
+			// exactly one state object per parser run: one allocation site of the type, in the parser or in a constructor the
+			// parser calls once before its loop
+			nAlloc := 0
+			for _, f := range fns {
+				instrs(f, func(in ssa.Instruction) {
+					if al, ok := in.(*ssa.Alloc); ok && types.Identical(al.Type().(*types.Pointer).Elem(), r.StateT) {
+						nAlloc++
+					}
+				})
+			}
+			if !a.need(nAlloc == 1, rule, "a single allocation site of the transaction state object") {
+				return nil
+			}
+			// position getter: the initial value of the position field
+			for _, s := range r.Pos.stores() {
+				if s.Field == "" {
+					if c, ok := s.val().(*ssa.Call); ok {
+						if f := c.Common().StaticCallee(); f != nil && f.Pkg == w.Root && f != r.Commit {
+							r.GetPos = f
+						}
+					}
+				}
+			}
+			if !a.need(r.GetPos != nil, rule, "position getter (initialiser of the position field)") {
+				return nil
+			}
+		} else {
+			// the begin closure is optional: its two statements may be written out in the BEGIN arm instead
+			if !a.need(r.Commit != nil, rule, "commit closure (closure of the parser that calls the handler)") {
+				return nil
+			}
+			instrs(r.Parser, func(in ssa.Instruction) {
+				switch x := in.(type) {
+				case *ssa.MakeClosure:
+					if x.Fn == r.Commit {
+						r.CommitMC = x
+					}
+					if x.Fn == r.Begin {
+						r.BeginMC = x
+					}
+				}
+			})
+			if !a.need(r.CommitMC != nil && (r.BeginMC != nil || r.Begin == nil), rule, "closure construction sites") {
+				return nil
+			}
+			// cells captured by the commit closure, by type
+			for _, b := range r.CommitMC.Bindings {
+				al, ok := b.(*ssa.Alloc)
+				if !ok {
+					continue
+				}
+				et := al.Type().(*types.Pointer).Elem()
+				switch {
+				case namedIs(et, rootPath, "Position"):
+					r.Pos = newCell(al)
+				case types.Identical(et, types.Typ[types.Bool]):
+					r.Auto = newCell(al)
+				case types.Identical(et, types.Universe.Lookup("error").Type()):
+					r.Err = newCell(al)
+				default:
+					if sl, ok := et.Underlying().(*types.Slice); ok && typeIs(sl.Elem(), rootPath, "StreamEvent") {
+						r.Tran = newCell(al)
+					}
+				}
+			}
+			if !a.need(r.Pos != nil, rule, "position cell (Position variable captured by the commit closure)") ||
+				!a.need(r.Tran != nil, rule, "transaction buffer cell ([]*StreamEvent captured by the commit closure)") ||
+				!a.need(r.Auto != nil, rule, "autocommit cell (bool captured by the commit closure)") {
+				return nil
+			}
+			// the position cell is initialised from a method that loads nowPos
+			for _, s := range r.Pos.stores() {
+				if s.Fn == r.Parser && s.Field == "" {
+					if c, ok := s.Store.Val.(*ssa.Call); ok {
+						if f := c.Common().StaticCallee(); f != nil && f.Pkg == w.Root {
+							r.GetPos = f
+						}
+					}
+				}
+			}
+			if !a.need(r.GetPos != nil, rule, "position getter (initialiser of the position cell)") {
+				return nil
+			}
+		} // closures
 	} // txn
 	if want("p") {
 		instrs(r.Parser, func(in ssa.Instruction) {
@@ -398,4 +489,41 @@ func isFieldAddrOf(v ssa.Value, field *types.Var) bool {
 	}
 	st := fa.X.Type().Underlying().(*types.Pointer).Elem().Underlying().(*types.Struct)
 	return st.Field(fa.Field) == field
+}
+
+// commitCalls / beginCalls: the calls of the commit / begin role in the parser (and its closures): calls of the closure
+// value, or static calls of the method when the state is an object.
+func (r *Roles) commitCalls() []*ssa.Call { return r.roleCalls(r.Commit, r.CommitMC) }
+func (r *Roles) beginCalls() []*ssa.Call  { return r.roleCalls(r.Begin, r.BeginMC) }
+
+func (r *Roles) roleCalls(fn *ssa.Function, mc *ssa.MakeClosure) []*ssa.Call {
+	var out []*ssa.Call
+	if mc != nil {
+		for _, ref := range *mc.Referrers() {
+			if c, ok := ref.(*ssa.Call); ok && c.Common().Value == ssa.Value(mc) {
+				out = append(out, c)
+			}
+		}
+		return out
+	}
+	if fn == nil || r.Parser == nil {
+		return nil
+	}
+	fns := append([]*ssa.Function{r.Parser}, r.Parser.AnonFuncs...)
+	for _, f := range fns {
+		instrs(f, func(in ssa.Instruction) {
+			if c, ok := in.(*ssa.Call); ok && c.Common().StaticCallee() == fn && !c.Common().IsInvoke() {
+				out = append(out, c)
+			}
+		})
+	}
+	return out
+}
+
+// isRoleCall: x calls the commit (or begin) role.
+func (r *Roles) isRoleCall(x *ssa.Call, fn *ssa.Function, mc *ssa.MakeClosure) bool {
+	if mc != nil {
+		return x.Common().Value == ssa.Value(mc)
+	}
+	return fn != nil && x.Common().StaticCallee() == fn && !x.Common().IsInvoke()
 }
